@@ -510,9 +510,42 @@ def _io_send_program(fn, path, rob):
     return prog
 
 
+def _write_state_shape(pc, path):
+    """the data structures the micro-steps act on: a FIFO queue.Queue() of messages, an immutable bytes buffer, and
+    add_out_msg = one put() on that queue (a priority queue, a deque used as a stack, a mutable bytearray ... are other
+    programs than the one the theorems are about)"""
+    init = _find_func(pc, "__init__", path)
+    seen = {}
+    for st in ast.walk(init):
+        if isinstance(st, (ast.Assign, ast.AnnAssign)):
+            tgt = st.targets[0] if isinstance(st, ast.Assign) else st.target
+            if _is_self_attr(tgt, "_write_msg_queue"):
+                v = st.value
+                ok = isinstance(v, ast.Call) and _dotted(v.func) == "queue.Queue" and not v.args and not v.keywords
+                if not ok:
+                    raise TranslationError(f"{path}:{st.lineno}: _write_msg_queue is not a plain queue.Queue()")
+                seen["q"] = True
+            if _is_self_attr(tgt, "_write_buffer"):
+                v = st.value
+                if not (isinstance(v, ast.Constant) and v.value == b""):
+                    raise TranslationError(f"{path}:{st.lineno}: _write_buffer is not initialised to the immutable b\"\"")
+                seen["b"] = True
+    if set(seen) != {"q", "b"}:
+        raise TranslationError(f"{path}:{init.lineno}: write queue / buffer initialisation not found")
+    add = _find_func(pc, "add_out_msg", path)
+    body = _strip_doc(add.body)
+    ok = (len(body) == 1 and isinstance(body[0], ast.Expr) and isinstance(body[0].value, ast.Call)
+          and _dotted(body[0].value.func) == "self._write_msg_queue.put" and len(body[0].value.args) == 1
+          and isinstance(body[0].value.args[0], ast.Name) and body[0].value.args[0].id == add.args.args[1].arg
+          and not body[0].value.keywords)
+    if not ok:
+        raise TranslationError(f"{path}:{add.lineno}: add_out_msg is not a single put() of the message on the write queue")
+
+
 def gen_write():
     ppath, ptree = _parse("node/peer.py")
     pc = _find_class(ptree, "PeerConnection", ppath)
+    _write_state_shape(pc, ppath)
     wp = _writer_program(_find_func(pc, "work_write_queue", ppath), ppath)
     rob = _remove_out_bytes_program(_find_func(pc, "remove_out_bytes", ppath), ppath)
     npath, ntree = _parse("node/node.py")
